@@ -47,6 +47,8 @@ def main():
             return foreign_chunk(c, tmp)
         if fn == "nonascii_text":
             return nonascii_text(c, tmp)
+        if fn == "empty_chunks":
+            return empty_chunks(c, tmp)
         return ["unknown-fn", fn]
 
     def foreign_chunk(c, tmp):
@@ -137,6 +139,52 @@ def main():
             got = pf.key_value_metadata.get("k")
             ok = ok and (got == text or got == text.encode("utf-8"))
         return ["ok", "clean" if ok else "bad-reads", "%s with %d non-ASCII characters" % (path, c["chars"])]
+
+    def empty_chunks(c, tmp):
+        """ZERO-row chunks / empty batches / empty frames through one write path: the outcome must be 'written and reads back
+        equal' or a Python exception - never a signal (an empty chunk must not reach the compiled thrift setters as None)."""
+        import pandas as pd
+        n = c["n"]
+        df = pd.DataFrame({"k": [("a", "b", "c")[i % 3] for i in range(n)], "x": np.arange(n, dtype="int64"),
+                           "f": np.arange(n, dtype="float64") / 2})
+        dn = os.path.join(tmp, "ds")
+        scheme, op = c["scheme"], c["op"]
+        kw = {"file_scheme": scheme}
+        if c.get("partition_on") and scheme != "simple":
+            kw["partition_on"] = ["k"]
+        want = df
+        try:
+            if op == "offsets":
+                fastparquet.write(dn, df, row_group_offsets=c["offsets"], **kw)
+            elif op == "empty_frame":
+                fastparquet.write(dn, df[:0], **kw)
+                want = df[:0]
+            elif op == "append_empty":
+                fastparquet.write(dn, df, **kw)
+                fastparquet.write(dn, df[:0], append=True, **kw)
+            elif op == "append_offsets":
+                fastparquet.write(dn, df, **kw)
+                fastparquet.write(dn, df, append=True, row_group_offsets=c["offsets"], **kw)
+                want = pd.concat([df, df], ignore_index=True)
+            elif op == "write_row_groups":
+                fastparquet.write(dn, df, **kw)
+                pf = fastparquet.ParquetFile(dn)
+                cuts = c["cuts"]
+                parts = [df[a:b] for a, b in zip(cuts[:-1], cuts[1:])]
+                pf.write_row_groups(iter(parts))
+                want = pd.concat([df] + parts, ignore_index=True)
+            else:
+                return ["unknown-op", op]
+        except Exception as e:       # noqa
+            return ["ok", "write-raised", "%s: %s" % (type(e).__name__, str(e)[:100])]
+        try:
+            out = fastparquet.ParquetFile(dn).to_pandas()
+        except Exception as e:       # noqa
+            return ["ok", "read-raised", "%s: %s" % (type(e).__name__, str(e)[:100])]
+        # (values are C01 / C08's business: here only what a crash-free outcome looks like is recorded)
+        a, b = out, want
+        same = len(a) == len(b) and ("x" not in a.columns or sorted(a["x"].tolist()) == sorted(b["x"].tolist()))
+        return ["ok", "clean" if same else "differs", "%d rows written, %d read" % (len(b), len(a))]
 
     def mt_read(c, tmp):
         """Concurrent well-formed use: ONE ParquetFile handle, several threads, each reading its own column(s) over and
